@@ -8,7 +8,7 @@ import subprocess
 import sys
 import tempfile
 
-from vp.replay.cli_harness import content, ANSI, run_cli
+from vp.replay.cli_harness import content, ANSI, run_cli, json_report
 
 GOOD = (".c", ".h")
 LOOKALIKE = (".cc", ".hh", ".C", ".c.bak", ".txt", "")
@@ -147,7 +147,7 @@ def check_tree(seed, use_git):
 def dotdot_scenario():
     """two different files whose relative paths differ only by leading ./ and ../ characters, in
     one invocation: both are checked, each on its own content (the second one lacks its header)"""
-    viol = []
+    viol, unreadable = [], []
     d = tempfile.mkdtemp(prefix="c15d_")
     try:
         os.makedirs(os.path.join(d, "libft", "src"))
@@ -158,10 +158,9 @@ def dotdot_scenario():
             fh.write("int\tft_other(void)\n{\n\treturn (1);\n}\n")      # no 42 header
         for args in (["src/ft_util.c", "../src/ft_util.c"], ["./src/ft_util.c", "../src/ft_util.c"], ["../src/ft_util.c", "src/ft_util.c"]):
             rc, out, err = run_cli(["-f", "json"] + args, os.path.join(d, "libft"))
-            try:
-                data = json.loads(out[out.index('{"files"'):])
-            except Exception:
-                viol.append(f"arguments {args}: no JSON report")
+            data = json_report(out)
+            if data is None:
+                unreadable.append(f"arguments {args}: no JSON report")
                 continue
             paths = [f["path"] for f in data["files"]]
             if len(paths) != 2:
@@ -174,7 +173,7 @@ def dotdot_scenario():
                     viol.append(f"arguments {args}: {os.path.relpath(f['path'], d)} gets INVALID_HEADER {n} time(s)")
     finally:
         shutil.rmtree(d, ignore_errors=True)
-    return {"cases": 3, "violations": viol}
+    return {"cases": 3, "violations": viol, "unreadable": unreadable}
 
 
 def k10_witness():
